@@ -19,6 +19,7 @@ CLAUSE_PROPERTY = [
     ("impute.", "C06"),
     ("contract.", "C15"),
     ("first.", "C15"),
+    ("manual.", "C15"),
     ("fault.", "C17"),
 ]
 
